@@ -62,8 +62,66 @@ enum ReadEnd {
 /// (a client that writes a large pipelined request without reading deadlocks against any
 /// server once both socket buffers are full; real drivers read while they write).
 struct Halves {
-    r: tokio::io::ReadHalf<TcpStream>,
-    w: tokio::io::WriteHalf<TcpStream>,
+    r: tokio::io::ReadHalf<Stream>,
+    w: tokio::io::WriteHalf<Stream>,
+}
+
+/// The client's end of the connection: the simulated socket itself, or TLS over it.
+pub enum Stream {
+    Plain(TcpStream),
+    Tls(Box<tokio_rustls::client::TlsStream<TcpStream>>),
+}
+
+impl Stream {
+    fn set_abort_on_drop(&mut self, on: bool) {
+        match self {
+            Stream::Plain(s) => s.set_abort_on_drop(on),
+            Stream::Tls(t) => t.get_mut().0.set_abort_on_drop(on),
+        }
+    }
+}
+
+impl tokio::io::AsyncRead for Stream {
+    fn poll_read(self: std::pin::Pin<&mut Self>, cx: &mut std::task::Context<'_>, buf: &mut tokio::io::ReadBuf<'_>) -> std::task::Poll<std::io::Result<()>> {
+        match self.get_mut() {
+            Stream::Plain(s) => std::pin::Pin::new(s).poll_read(cx, buf),
+            Stream::Tls(t) => std::pin::Pin::new(t.as_mut()).poll_read(cx, buf),
+        }
+    }
+}
+
+impl tokio::io::AsyncWrite for Stream {
+    fn poll_write(self: std::pin::Pin<&mut Self>, cx: &mut std::task::Context<'_>, buf: &[u8]) -> std::task::Poll<std::io::Result<usize>> {
+        match self.get_mut() {
+            Stream::Plain(s) => std::pin::Pin::new(s).poll_write(cx, buf),
+            Stream::Tls(t) => std::pin::Pin::new(t.as_mut()).poll_write(cx, buf),
+        }
+    }
+    fn poll_flush(self: std::pin::Pin<&mut Self>, cx: &mut std::task::Context<'_>) -> std::task::Poll<std::io::Result<()>> {
+        match self.get_mut() {
+            Stream::Plain(s) => std::pin::Pin::new(s).poll_flush(cx),
+            Stream::Tls(t) => std::pin::Pin::new(t.as_mut()).poll_flush(cx),
+        }
+    }
+    fn poll_shutdown(self: std::pin::Pin<&mut Self>, cx: &mut std::task::Context<'_>) -> std::task::Poll<std::io::Result<()>> {
+        match self.get_mut() {
+            Stream::Plain(s) => std::pin::Pin::new(s).poll_shutdown(cx),
+            Stream::Tls(t) => std::pin::Pin::new(t.as_mut()).poll_shutdown(cx),
+        }
+    }
+}
+
+/// TLS client side: any certificate is accepted (the pooler's test certificate is self-signed).
+async fn tls_upgrade(s: TcpStream) -> std::io::Result<Stream> {
+    use tokio_rustls::rustls;
+    let cfg = rustls::ClientConfig::builder()
+        .with_safe_defaults()
+        .with_custom_certificate_verifier(std::sync::Arc::new(pgcat::tls::NoCertificateVerification {}))
+        .with_no_client_auth();
+    let connector = tokio_rustls::TlsConnector::from(std::sync::Arc::new(cfg));
+    let name = rustls::ServerName::try_from("pgcat.sim").map_err(|_| std::io::Error::new(std::io::ErrorKind::InvalidInput, "server name"))?;
+    let t = connector.connect(name, s).await?;
+    Ok(Stream::Tls(Box::new(t)))
 }
 
 struct Conn {
@@ -73,12 +131,14 @@ struct Conn {
 }
 
 impl Halves {
-    fn new(s: TcpStream) -> Halves {
+    fn new(s: Stream) -> Halves {
         let (r, w) = tokio::io::split(s);
         Halves { r, w }
     }
     async fn write_all(&mut self, b: &[u8]) -> std::io::Result<()> {
-        self.w.write_all(b).await
+        self.w.write_all(b).await?;
+        // TLS buffers plaintext until flushed; a no-op on the plain socket
+        self.w.flush().await
     }
     async fn read(&mut self, b: &mut [u8]) -> std::io::Result<usize> {
         self.r.read(b).await
@@ -168,21 +228,37 @@ pub async fn run_client(spec: ClientSpec) {
         c.net_conn = s.conn_id();
     }
     let mut abort_at_end = false;
-    let mut conn = Conn { s: Halves::new(s), f: Framer::default(), raw: Vec::new() };
+    // ---- SSLRequest (answered N without a certificate, S and a TLS handshake with one) ----
+    let mut s = s;
+    let stream: Stream = if spec.ssl_probe || spec.tls {
+        let mut b = [0u8; 1];
+        let ok = s.write_all(&proto::ssl_request()).await.is_ok() && matches!(tokio::time::timeout(patience, s.read_exact(&mut b)).await, Ok(Ok(_)));
+        if !ok {
+            HIST.lock().clients.get_mut(&id).unwrap().auth_result = "closed".into();
+            finish(id);
+            return;
+        }
+        if b[0] == b'S' && spec.tls {
+            match tokio::time::timeout(patience, tls_upgrade(s)).await {
+                Ok(Ok(t)) => {
+                    world::probe("client_tls_established");
+                    t
+                }
+                _ => {
+                    HIST.lock().clients.get_mut(&id).unwrap().auth_result = "closed".into();
+                    finish(id);
+                    return;
+                }
+            }
+        } else {
+            Stream::Plain(s)
+        }
+    } else {
+        Stream::Plain(s)
+    };
+    let mut conn = Conn { s: Halves::new(stream), f: Framer::default(), raw: Vec::new() };
 
     // ---- startup ----
-    if spec.ssl_probe {
-        let _ = conn.s.write_all(&proto::ssl_request()).await;
-        let mut b = [0u8; 1];
-        match tokio::time::timeout(patience, conn.s.read_exact(&mut b)).await {
-            Ok(Ok(_)) => {}
-            _ => {
-                HIST.lock().clients.get_mut(&id).unwrap().auth_result = "closed".into();
-                finish(id);
-                return;
-            }
-        }
-    }
     let startup_bytes = match &spec.raw_startup {
         Some(hex) => proto::unhex(hex),
         None => {
@@ -596,6 +672,8 @@ pub async fn run_client(spec: ClientSpec) {
                                     Ok(n) => {
                                         off += n;
                                         if off == bytes.len() {
+                                            // TLS: push the last records out (no-op on the plain socket)
+                                            let _ = halves.w.flush().await;
                                             rec.sent_seq = simcore::log::world(|| format!("client {} step {} sent", id, idx));
                                             rec.sent_us = simcore::clock::now_us();
                                             world::emit(&format!("c{}.s{}.sent", id, idx));
